@@ -255,6 +255,8 @@ def core(module, exprs, script, level, cfg, info):
                 if not a.startswith('Eval error'):
                     failures.append(('unknown_name_not_reported',
                                      {'answer': a[:80]}))
+                for extra in cfg.get('extra_asks', ()):
+                    ask(dbg, extra)     # any answer; must not raise
                 for pe in exprs[cpu.pc]:
                     if pe.far:
                         a = ask(dbg, pe.far)
@@ -595,8 +597,34 @@ def expr_program(op, left):
     return '\n'.join(lines) + '\n', by_line
 
 
+def scope_program():
+    """Names that exist at several levels: a parameter and a local that hide
+    SHARED variables, a CONST of a procedure that hides a module CONST, a
+    STATIC that outlives a call; and expressions the evaluator cannot handle
+    (they must be answered, not crash)."""
+    lines = ['CONST lim = 5', 'CONST big& = 70000', 'DIM SHARED g1 AS LONG',
+             'DIM SHARED g2 AS DOUBLE', 'g1 = 11', 'g2 = 1.5',
+             'PRINT "@@m"; g1; g2; lim; big&',
+             'CALL s(22)', 'CALL s(33)',
+             'PRINT "@@n"; g1; g2; lim',
+             'SUB s (g1 AS LONG)',
+             'CONST lim = 9', 'STATIC cnt AS INTEGER', 'DIM lc AS STRING',
+             'cnt = cnt + 1', 'lc = "loc"',
+             'PRINT "@@s"; g1; g2; lc; lim; cnt; big&; lim * 2; g1 + cnt',
+             'END SUB']
+    text = '\n'.join(lines) + '\n'
+    def pe(txts, tag):
+        return [PExpr(t, 'scopes', True, ' ' not in t, None, tag)
+                for t in txts]
+    by_line = {7: pe(['g1', 'g2', 'lim', 'big&'], 'm'),
+               10: pe(['g1', 'g2', 'lim'], 'n'),
+               17: pe(['g1', 'g2', 'lc', 'lim', 'cnt', 'big&', 'lim * 2',
+                       'g1 + cnt'], 's')}
+    return text, by_line
+
+
 def items(cfg):
-    out = []
+    out = [(('scopes',), 'module', 0), (('scopes',), 'module', 2)]
     for op in EXPR_OPS:
         for ln, _ in EXPR_VARS:
             out.append((('expr', op, ln), 'module', 0))
@@ -609,6 +637,17 @@ def items(cfg):
 
 def check_item(item, cfg):
     shape, scope, level = item
+    if shape[0] == 'scopes':
+        text, by_line = scope_program()
+        r = judge_text(text, by_line, level, cfg, ['catalogue:scopes'])
+        # expressions outside the evaluator's reach: answered, never a crash
+        r2 = judge_text('x# = -2.5\nPRINT "@@q"; x#\n', {2: [
+            PExpr('x#', 'scopes', True, True, None, 'q')]}, level,
+            dict(cfg, extra_asks=['abs(x#)', 'len("a")', 'x#(1)', 'x#.f',
+                                  '1 +', 'x# +* 2', '"a" + 1', 'nosuch(3)']),
+            ['catalogue:scopes'])
+        r['failures'] = r['failures'] + r2['failures']
+        return r
     if shape[0] == 'expr':
         text, by_line = expr_program(shape[1], shape[2])
         return judge_text(text, by_line, level, cfg,
